@@ -44,6 +44,17 @@ def run(ctx):
         line = "MODEL-DRIFT property=C16 node.UnmarshalBinary accept=%s, transcription %s on %s" % (dsm["code"], dsm["model"], dsm["bytes"][:80])
         ctx.drift.append(line)
         print(line)
+    # second family: structural sweeps (every truncation, length-field boundary patterns at every offset) of valid quotes,
+    # collateral, attestation reports, descriptors, commitments and runtime-host protocol frames
+    sw_out = ctx.path("sweep.json")
+    vlib.run_vh(ctx, ["wire-sweep", "-out", sw_out] + (["-dense", "260", "-stride", "37"] if q else ["-dense", "1000000", "-stride", "1"]), timeout=3000)
+    sw = json.load(open(sw_out))
+    ctx.log("sweeps: %d targets, %d seed encodings, %d inputs, %d accepted, panics %d, hangs %d, big allocations %d" % (
+        sw["targets"], sw["seeds"], sw["inputs"], sw["accepted"], sw["panics"], sw["slow"], sw["big_alloc"]))
+    for p in (sw["problems"] or [])[:5]:
+        vlib.report(ctx, "%s in %s on input %s (%s)" % (p["kind"], p["entry"], p["bytes"][:200], json.dumps(p.get("case"))), p,
+                    {"kind": p["kind"], "entry": p["entry"]})
+    ctx.coverage.update(sweep_targets=sw["targets"], sweep_seed_encodings=sw["seeds"], sweep_inputs=sw["inputs"], sweep_by_entry=sw["by_entry"])
     # live multiplexers: junk / malformed / bit-flipped transaction bytes through DeliverTx (every call under recover())
     lines, sums = cc.run_scenarios(ctx, [ctx.seed * 1000 + 900 + i for i in range(3 if q else 24)], 120 if q else 300)
     t = cc.totals(sums)
